@@ -126,6 +126,11 @@ def check(ctx):
                "covered) is mapped to a number before it is returned or cached", floor=1)
     ctx.guarded(o, lambda o: capacity_number(ctx, o))
 
+    o = ctx.ob('next_has_a_default', 'R6b',
+               "every next() on an iterator that can run dry (a filtered / finite generator) passes a default: a bare next() ends in "
+               "StopIteration, not in a schedule or a RuntimeError diagnosis", floor=1)
+    ctx.guarded(o, lambda o: next_calls(ctx, o, core))
+
     o = ctx.ob('subscripts_discharged', 'R6b',
                "every non-constant subscript in the scheduler core indexes a list by a range over its own length", floor=1)
     ctx.guarded(o, lambda o: subscripts(ctx, o, core))
@@ -236,6 +241,14 @@ def loops(ctx, o, core):
                 # a counter bounds the loop, but what happens when it is exhausted is written in a form the rule does not follow
                 o.undecided(f, lp, lp.test, f"while loop `{src(lp.test)}`: {half[1]} in a recognised form")
                 continue
+            em = sched.is_emptiness(lp.test, True)
+            if em is not None and not em[1] and isinstance(em[0], ast.Name) and \
+                    any(isinstance(c_.func, ast.Attribute) and isinstance(c_.func.value, ast.Name) and c_.func.value.id == em[0].id
+                        for c_ in facts.calls_named(f, 'pop')):
+                # a worklist loop (runs while the stack is non-empty and pops it) whose progress argument the rule could not complete
+                o.undecided(f, lp, lp.test, f"worklist loop `{src(lp.test)}`: could not show that every cycle pops, pushes a fresh node or "
+                                            f"consumes an iterator element")
+                continue
             o.refute(f, lp, lp.test, f"while loop `{src(lp.test)}` has no counter with a RuntimeError bound")
 
 
@@ -292,6 +305,17 @@ def _raise_after_loop(f, lp):
     return False
 
 
+def _stop_iteration_handled(f, call):
+    """call sits in the body of a try whose handlers catch StopIteration (or everything)"""
+    for t in ast.walk(f.node):
+        if isinstance(t, ast.Try) and any(x is call for st in t.body for x in ast.walk(st)):
+            for h in t.handlers:
+                names = [] if h.type is None else (h.type.elts if isinstance(h.type, ast.Tuple) else [h.type])
+                if h.type is None or any(isinstance(x, ast.Name) and x.id in ('StopIteration', 'Exception', 'BaseException') for x in names):
+                    return True
+    return False
+
+
 def _is_worklist(ctx, f, lp):
     """while len(stack) > 0 / while stack:  where every cycle pops the stack or pushes a node that is marked, and every push
     is dominated by `key not in <mark set>` tests for every mark set"""
@@ -308,8 +332,8 @@ def _is_worklist(ctx, f, lp):
     if not pops:
         return False
     # consuming one element of a finite iterator (`next(it, default)`, two-argument form: no StopIteration) is progress too
-    nexts = [c for c in facts.calls_named(f, 'next') if isinstance(c.func, ast.Name) and len(c.args) == 2 and
-             any(x is c for st in lp.body for x in ast.walk(st))]
+    nexts = [c for c in facts.calls_named(f, 'next') if isinstance(c.func, ast.Name) and
+             (len(c.args) == 2 or _stop_iteration_handled(f, c)) and any(x is c for st in lp.body for x in ast.walk(st))]
     prog_ids = {cfg.node_containing(c).id for c in pops + pushes + nexts if cfg.node_containing(c) is not None}
     raise_ids = {n.id for n in cfg.nodes if isinstance(n.ast, ast.Raise)}
     if _cycle_avoiding(cfg, hdr, prog_ids | raise_ids):
@@ -644,7 +668,15 @@ def _loop_exit_divisor(ctx, f, node, D, S):
     cfg = fl.cfg
     rc = sched.reserve_calls(ctx, f)
     if len(rc) != 1:
-        return ('undecided', "no single booking site to infer from") if rc else "divisor not proved non-zero"
+        if rc:
+            return ('undecided', "no single booking site to infer from")
+        # the booking may sit in a helper the fill delegates to (not inlined by the normaliser): not followed, not refuted
+        exf = Expander(prog, f, ctx.typer, inline=False)
+        for call in [x for x in walk_no_nested(f.node) if isinstance(x, ast.Call)]:
+            g = exf._single_target(call)
+            if g is not None and g is not f and not isinstance(g.node, ast.Lambda) and sched.reserve_calls(ctx, g):
+                return ('undecided', f"the booking is made inside {g.qual}, which the rule does not follow")
+        return "divisor not proved non-zero"
     c = rc[0]
     loop = sched.while_loop_of(f, c)
     if loop is None:
@@ -665,7 +697,24 @@ def _loop_exit_divisor(ctx, f, node, D, S):
         return ('undecided', "loop guard is not `remaining > 0`")
     # only update of remaining is the booking statement
     defs = [d for d in fl.defs_of(gvar) if d.kind not in ('param', 'assign') or gvar == left_p and d.kind != 'param']
-    if not defs or any(not (d.kind == 'aug' and d.stmt.value is c) for d in defs):
+
+    def via_working_copy(d):
+        """`w = remaining; [if free > 0:] w -= reserve(..); remaining = w` inside one iteration (a spliced one-day helper): the
+        update of remaining is still exactly the booking"""
+        if d.kind != 'assign' or not isinstance(d.value, ast.Name) or not in_loop_node(d.node):
+            return False
+        wdefs = fl.defs_of(d.value.id)
+        copies = [x for x in wdefs if x.kind == 'assign']
+        augs = [x for x in wdefs if x.kind == 'aug']
+        return len(copies) == 1 and isinstance(copies[0].value, ast.Name) and copies[0].value.id == gvar and in_loop_node(copies[0].node) and \
+            cfg.dominates(copies[0].node, d.node) and len(augs) == 1 and augs[0].stmt.value is c and isinstance(augs[0].stmt.op, ast.Sub) and \
+            len(copies) + len(augs) == len(wdefs)
+
+    lhdr = cfg.node_of(loop)
+
+    def in_loop_node(n_):
+        return n_ is not None and lhdr is not None and cfg.can_reach(lhdr, n_) and cfg.can_reach(n_, lhdr)
+    if not defs or any(not ((d.kind == 'aug' and d.stmt.value is c) or via_working_copy(d)) for d in defs):
         return ('undecided', "the remaining work is updated elsewhere than at the booking")
     rnode = cfg.node_containing(c)
     # booking dominated by V - RESV > 0 where V is the divisor (same value)
@@ -688,10 +737,14 @@ def _loop_exit_divisor(ctx, f, node, D, S):
     Dx = ex.expand(D, cn, stop=selfref)
     capD = parse_cap(Dx)
     if capD is None and isinstance(D, ast.Name):
-        ds = [d for d in fl.defs_of(D.id) if d.kind == 'assign' and parse_cap(d.value)]
+        def cap_of_def(d):
+            if d.kind != 'assign' or d.value is None:
+                return None
+            return parse_cap(d.value) or (parse_cap(ex.expand(d.value, d.node, stop=selfref)) if d.node is not None else None)
+        ds = [d for d in fl.defs_of(D.id) if cap_of_def(d)]
         others = [d for d in fl.defs_of(D.id) if d not in ds]
         if len(ds) == 1 and all(d.kind == 'assign' and isinstance(d.value, ast.Constant) for d in others):
-            capD = parse_cap(ds[0].value)
+            capD = cap_of_def(ds[0])
     if capD is None or not (same(capD['r'], cap_of_booking['r']) and same(capD['d'], cap_of_booking['d'])):
         return "the divisor is not the capacity that was tested `free > 0` at the last booking"
     dpath = attr_path(capD['d'])
@@ -730,6 +783,9 @@ def extrema(ctx, o, core):
                 continue
             if len(n.args) != 1:
                 o.site(f, n, f"{n.func.id} of {len(n.args)} arguments")
+                continue
+            if any(k.arg == 'default' for k in n.keywords):
+                o.site(f, n, f"{n.func.id}(.., default=..) has an answer for the empty sequence")
                 continue
             seq = n.args[0]
             if _has_literal_element(seq):
@@ -895,7 +951,40 @@ def none_safe(ctx, o, core):
                     if filled:
                         o.site(f, n, f"{src(e)} filled by the dominating `is None` block")
                         continue
+                    if _definitely_set(ps, e.attr, stmt_node):
+                        o.site(f, n, f"{src(e)} assigned or tested non-None on every path to this statement")
+                        continue
                 o.refute(f, n, n, f"`{src(n)[:60]}` uses nullable `{src(e)}` without a None test (TypeError)")
+
+
+def _definitely_set(ps, attr, at):
+    """every path from the entry of the pass to node `at` stores a value into task.<attr> or passes a branch on which
+    `task.<attr> is None` is false (`if x is None and leaf: x = .. elif x is None: x = ..` and similar merged forms)"""
+    cfg = ps.cfg
+    gen = set()
+    for st, tgt, val, reg in ps.stores(attr):
+        if isinstance(val, ast.Constant) and val.value is None:
+            return False              # the field is also reset inside the pass: not decided here
+        sn = cfg.node_of(st)
+        if sn is not None:
+            gen.add(sn.id)
+    for b in cfg.nodes:
+        if b.kind == 'branch' and b.test is not None and not isinstance(b.test, (ast.For, ast.AsyncFor)):
+            for a, q in facts.split_conj(b.test, b.polarity):
+                if facts.cond_is(a, q, f"{ps.task}.{attr} is None", want=False):
+                    gen.add(b.id)
+    if at.id in gen:
+        return False
+    seen, todo = set(), [cfg.entry]
+    while todo:
+        x = todo.pop()
+        if x.id in seen or x.id in gen:
+            continue
+        seen.add(x.id)
+        if x is at:
+            return False
+        todo.extend(x.succ)
+    return True
 
 
 def _fills_all_branches(ps, attr, test):
@@ -1097,4 +1186,57 @@ def capacity_number(ctx, o):
                                   f"the capacity, so None ends in TypeError instead of a schedule or a RuntimeError")
         else:
             o.site(f, r, f"returns `{src(v)[:70]}`: None mapped to a number")
+
+
+# ======================================================================================================================
+def next_calls(ctx, o, core):
+    prog = ctx.prog
+    for f in core:
+        if isinstance(f.node, ast.Lambda):
+            continue
+        fl = flow_of(f)
+        for n in walk_no_nested(f.node):
+            if not (isinstance(n, ast.Call) and isinstance(n.func, ast.Name) and n.func.id == 'next' and n.args):
+                continue
+            if len(n.args) >= 2 or any(k.arg == 'default' for k in n.keywords):
+                o.site(f, n, "next(it, default)")
+                continue
+            if _stop_iteration_handled(f, n):
+                o.site(f, n, "StopIteration handled by the enclosing try")
+                continue
+            it = n.args[0]
+            for _ in range(3):
+                if isinstance(it, ast.Name):
+                    ds = fl.defs_of(it.id)
+                    if len(ds) == 1 and ds[0].kind == 'assign' and ds[0].value is not None:
+                        it = ds[0].value
+                        continue
+                if isinstance(it, ast.Call) and isinstance(it.func, ast.Name) and it.func.id == 'iter' and len(it.args) == 1:
+                    it = it.args[0]
+                    continue
+                break
+            if isinstance(it, ast.Name):
+                # `a, it = stack[-1]` with every stack entry built as (.., iter(<collection>)): an iterator over a finite collection
+                for d in fl.defs_of(it.id):
+                    if d.kind == 'unpack' and isinstance(d.stmt, ast.Assign) and isinstance(d.stmt.targets[0], ast.Tuple) and \
+                            isinstance(d.stmt.value, ast.Subscript) and isinstance(d.stmt.value.value, ast.Name):
+                        idx = next((i for i, e_ in enumerate(d.stmt.targets[0].elts) if isinstance(e_, ast.Name) and e_.id == it.id), None)
+                        stack = d.stmt.value.value.id
+                        entries = [c_.args[0] for c_ in facts.calls_named(f, 'append') if isinstance(c_.func, ast.Attribute) and
+                                   isinstance(c_.func.value, ast.Name) and c_.func.value.id == stack and c_.args]
+                        for sd in fl.defs_of(stack):
+                            if sd.kind == 'assign' and isinstance(sd.value, ast.List):
+                                entries += sd.value.elts
+                        if idx is not None and entries and all(isinstance(e_, ast.Tuple) and len(e_.elts) > idx and isinstance(e_.elts[idx], ast.Call) and
+                                                               isinstance(e_.elts[idx].func, ast.Name) and e_.elts[idx].func.id == 'iter'
+                                                               for e_ in entries):
+                            it = entries[0].elts[idx]
+            if isinstance(it, (ast.GeneratorExp, ast.ListComp)) or \
+                    (isinstance(it, ast.Call) and isinstance(it.func, ast.Name) and it.func.id in ('filter', 'range', 'map', 'zip', 'reversed', 'iter')):
+                o.refute(f, n, n, f"`{src(n)[:70]}` has no default: when the generator runs dry (nothing matches within the horizon) it raises "
+                                  f"StopIteration instead of reaching a RuntimeError diagnosis")
+            elif isinstance(it, ast.Call) and (match("itertools.count($*a)", it) or match("count($*a)", it) or match("itertools.cycle($*a)", it)):
+                o.site(f, n, "next() on an infinite iterator")
+            else:
+                o.undecided(f, n, n, f"`{src(n)[:70]}` has no default and the rule cannot tell whether its iterator can run dry")
 
